@@ -132,7 +132,11 @@ func prop(c Case) error {
 			// scramble, or the window went to another size and back unreported):
 			// until the next full redraw only well-formedness can be asked for
 			if err := r.CheckStrict(); err != nil {
-				return fmt.Errorf("step %d (%s) on %s/%s/%s: %v", i, op.Kind, c.Cfg.Entry, c.Cfg.Color, c.Cfg.Charset, err)
+				tag := ""
+				if tainted {
+					tag = "[" + knownWideCorner + "] "
+				}
+				return fmt.Errorf("%sstep %d (%s) on %s/%s/%s: %v", tag, i, op.Kind, c.Cfg.Entry, c.Cfg.Color, c.Cfg.Charset, err)
 			}
 			continue
 		}
